@@ -5,11 +5,25 @@ from checks import common_sys as cs, common_core as cc
 PID = "C16"
 RULE = cs.IO_RULE + ("C16 oracle: return value == total bytes the kernel moved; -1 iff nothing moved and the last inner call failed, with that call's errno; 0 for a zero-length request and for end-of-stream with nothing moved; "
         "read side: the caller's buffers hold exactly the next bytes of the stream in order, canaries around and behind untouched; write side: the kernel's transcript is exactly the next bytes of the caller's data, none twice. "
-        "Non-trivial = non-empty script; distinct = (call, shape, script, mode, context).")
+        "Non-trivial = non-empty script; distinct = (call, shape, script, mode, context). "
+        "Added: the same accounting against the real kernel under real LD_PRELOAD interposition (wl-hook scenario 5): a task pushes 1..300 000 patterned bytes through libc send/write/writev/sendmsg/sendto into a 4 KiB socket buffer that a plain thread drains slowly "
+        "(the caller advances by each return value; the peer's transcript must equal the caller's data byte for byte), then reads an answer arriving in odd-sized pieces through recv/read/readv/recvmsg/recvfrom "
+        "(each return value must be the number of next-in-stream bytes now in the buffers, nothing written beyond it, canaries intact).")
 
 def run(tier, seed, t0):
     cases, lmax, grid = cs.io_cases(PID, seed, tier, "C16")
-    return vlib.finish(PID, tier, seed, "fault_enumeration", cases, rule=RULE, t0=t0, replay_builder=cs.io_replay_builder("C16", seed, tier, lmax),
+    # real kernel, real interposition: tasks push/pull patterned streams through the preloaded hook library
+    from checks import common_hook as ch
+    try:
+        cases += ch.cases(PID, seed, tier, 12 if tier != "thorough" else 75)
+        if tier == "thorough":
+            cases += ch.memcheck_cases(PID, seed, 6)
+    except vlib.BuildError as e:
+        c = vlib.Case(7_000_000); c.engine = "LD_PRELOAD interposition"; c.verdict = "inconclusive"; c.sig = "harness/hook-dylib-build-failed"; c.detail = str(e); cases.append(c)
+    base = cs.io_replay_builder("C16", seed, tier, lmax)
+    def rb(c):
+        return ch.replay_cmd(c, seed) if c.idx >= 7_000_000 else base(c)
+    return vlib.finish(PID, tier, seed, "fault_enumeration", cases, rule=RULE, t0=t0, replay_builder=rb,
                        extra_cov={"exhaustive_grid_cases": grid, "grid_script_length": lmax, "exhaustive": False},
                        assumptions=["the scripted kernel stands in for the real transfer; readiness waits, fcntl and socket options are real", "errno after a timeout may be EAGAIN/EWOULDBLOCK/ETIMEDOUT"])
 
